@@ -249,6 +249,8 @@ func checkPoolOrderSSA(c *core.Ctx, p *progFacts, rule string, f *ssa.Function) 
 		return 0, 0
 	}
 	nPools = 1
+	checkPoolSizes(c, rule, f)
+	c.Count("closes_under_completion_token", checkCloseDiscipline(c, p, rule, f))
 	var chans []*ssa.MakeChan
 	allInstrs(f, func(fn *ssa.Function, ins ssa.Instruction) {
 		if mc, ok := ins.(*ssa.MakeChan); ok && isDataChan(mc.Type()) && fn == f {
